@@ -21,19 +21,24 @@ def _tok(t):
     return str(t[1])
 
 
-def render(line, delim, rng):
+MARKERS = ["#", "#", "%", "//"]
+
+
+def render(line, delim, rng, marker="#"):
     d = " " if delim is None else delim
     txt = d.join(_tok(t) for t in line["toks"])
     if line["ws"]:
         txt = rng.choice(["  ", " ", "\t"]) + txt + rng.choice(["  ", " \t", " "])
     if line["com"]:
-        txt = txt + rng.choice(["#", " #", "# note", " # 1 2 3", "#1" + d + "2" + d + "3" + d + "4"])
+        txt = txt + rng.choice(["#", " #", "# note", " # 1 2 3", "#1" + d + "2" + d + "3" + d + "4"]).replace("#", marker)
     return txt + "\n"
 
 
-def _parse(parser, lines, delim, directed):
+def _parse(parser, lines, delim, directed, marker="#"):
     fn = dn.readwrite.edgelist.parse_snapshots if parser == "snapshots" else dn.readwrite.edgelist.parse_interactions
-    return fn(lines, directed=directed, delimiter=delim, nodetype=int, timestamptype=int)
+    if marker == "#" :
+        return fn(lines, directed=directed, delimiter=delim, nodetype=int, timestamptype=int)
+    return fn(lines, comments=marker, directed=directed, delimiter=delim, nodetype=int, timestamptype=int)
 
 
 def _grid(case):
@@ -57,10 +62,11 @@ def job_parse(job):
     L = core.labeling("int").prime(9)
     grid = _grid(case)
     empty = core.observe(core.new_graph(directed, True), L, KNOWN, grid)
-    res, G = _obs(lambda: _parse(parser, [render(l, delim, rng) for l in case], delim, directed))
-    cres, C = _obs(lambda: _parse(parser, [render(l, delim, rng) for l in clean], delim, directed))
+    marker = rng.choice(MARKERS)
+    res, G = _obs(lambda: _parse(parser, [render(l, delim, rng, marker) for l in case], delim, directed, marker))
+    cres, C = _obs(lambda: _parse(parser, [render(l, delim, rng, marker) for l in clean], delim, directed, marker))
     line = {"op": "parse", "parser": parser, "dir": bool(directed), "lines": case, "delim": repr(delim),
-            "res": res, "cres": cres, "fork": False,
+            "marker": marker, "res": res, "cres": cres, "fork": False,
             "obs": core.observe(G, L, KNOWN, grid) if G is not None else empty,
             "cobs": core.observe(C, L, KNOWN, grid) if C is not None else empty,
             "hdir": bool(G.is_directed()) if G is not None else bool(directed)}
